@@ -22,7 +22,11 @@ import (
 // verifies it. Lookup follows the protocol of the repo's fetcher (and of the
 // specification of the external TOC image): the manifest layer whose
 // "containerd.io/snapshot/stargz/layer.digest" annotation equals the layer digest.
-func checkTOCImage(r *vf.Run, c caseSpec, img *imageSrc, e *storeEnv, timg *images.Image, converted map[string]*convLayer, rp func(string, any) convReplay) bool {
+func checkTOCImage(r *vf.Run, c caseSpec, img *imageSrc, e *storeEnv, timg *images.Image, converted map[string]*convLayer, step string, rp func(string, any) convReplay) bool {
+	scen := ""
+	if step != "" {
+		scen = ":" + step // the scenario class is part of the key: another history, another defect
+	}
 	mb, err := e.blobBytes(timg.Target.Digest.String())
 	if err != nil {
 		r.Violate("toc-image:manifest-not-in-store", "finalize returned a TOC image whose manifest is not in the content store", rp("", map[string]any{"target": timg.Target}))
@@ -52,7 +56,7 @@ func checkTOCImage(r *vf.Run, c caseSpec, img *imageSrc, e *storeEnv, timg *imag
 		lname := fmt.Sprintf("layer %d (%s) converted to %s", cl.j, c.Layers[cl.j].Src, d)
 		ents := byLayer[d]
 		if len(ents) == 0 {
-			r.Violate("toc-image:layer-missing:"+c.Kind,
+			r.Violate("toc-image:layer-missing:"+c.Kind+scen,
 				fmt.Sprintf("the TOC image has no entry for a layer this converter instance converted (%d layers converted, %d entries in the TOC image)", len(converted), len(m.Layers)),
 				rp(lname, map[string]any{"converted_layers": digests, "toc_image_layer_annotations": keysOf(byLayer)}))
 			ok = false
@@ -80,7 +84,7 @@ func checkTOCImage(r *vf.Run, c caseSpec, img *imageSrc, e *storeEnv, timg *imag
 			ann := cl.rec.out.Annotations[annTOCDigest]
 			got := sha256Digest(js)
 			if got != ann {
-				r.Violate("toc-image:toc-does-not-verify-layer:"+c.Kind,
+				r.Violate("toc-image:toc-does-not-verify-layer:"+c.Kind+scen,
 					"the TOC blob the TOC image maps the layer to is not the TOC whose digest the layer descriptor carries",
 					rp(lname, map[string]any{"layer_toc_digest_annotation": ann, "sha256_of_mapped_toc_json": got}))
 				ok = false
@@ -92,7 +96,7 @@ func checkTOCImage(r *vf.Run, c caseSpec, img *imageSrc, e *storeEnv, timg *imag
 					_ = os.WriteFile(filepath.Join(dump, "source.blob"), img.Layers[cl.j].Blob, 0o644)
 					_ = os.WriteFile(filepath.Join(dump, "error.txt"), []byte(err.Error()), 0o644)
 				}
-				r.Violate("toc-image:mapped-toc-does-not-mount-and-verify:"+c.Kind, "the snapshotter's readers do not mount and verify the layer with the TOC blob the TOC image maps it to: "+errClass(err),
+				r.Violate("toc-image:mapped-toc-does-not-mount-and-verify:"+c.Kind+scen, "the snapshotter's readers do not mount and verify the layer with the TOC blob the TOC image maps it to: "+errClass(err),
 					rp(lname, map[string]any{"layer_toc_digest_annotation": ann}))
 				ok = false
 			}
@@ -161,7 +165,7 @@ func directStage(r *vf.Run) {
 			r.Inconclusive("direct: source manifest unreadable")
 			continue
 		}
-		lcf, finalize := newConverter(c, img)
+		lcf, finalize := newConverter(c, []digest.Digest{img.Layers[0].Digest})
 		// first a genuine layer, so that the converter instance has state
 		callDirect(r, ctx, e.cs, lcf, mans[0].Layers[0], kind, "layer")
 		for _, mt := range nonLayer {
